@@ -371,6 +371,16 @@ class Ctx:
             'property_id': self.pid, 'tier': self.tier, 'seed': self.seed, 'level': level, 'coverage': cov,
             'assumptions': assumptions or [], 'wall_s': round(wall, 2), 'violations': len(self.violations) + (1 if (self.broken and not self.violations) else 0),
         }
+        # the typed keys of /root/.vp/EVIDENCE.schema.json: a plug-in that puts text where the schema wants a number or a boolean
+        # would make the file count as no evidence; move such a value aside under <key>_note
+        typed = {'evaluations': int, 'distinct_nontrivial': int, 'states': int, 'transitions': int, 'traces_validated_against_impl': int,
+                 'obligations': int, 'discharged': int, 'programs': int, 'disagreements_checked': int, 'rule': str, 'checker_cmd': str,
+                 'explanation': str, 'samples': list, 'trusted_base': list, 'exhaustive': bool}
+        for k, t in typed.items():
+            if k in cov and (not isinstance(cov[k], t) or (t is int and isinstance(cov[k], bool))):
+                cov[k + '_note'] = cov.pop(k)
+                if t is bool:
+                    cov[k] = False
         evdir = os.path.join(ROOT, 'evidence') if REPO == '/repo' else os.path.join(os.path.dirname(HARNESS), 'evidence')
         os.makedirs(evdir, exist_ok=True)
         with open(os.path.join(evdir, self.pid + '.json'), 'w') as f:
